@@ -299,6 +299,13 @@ pub fn gen_op(rng: &mut Rng, s: &Snap, former_admins: &[String]) -> (String, Op)
             addr: if !s.hooks.is_empty() && rng.chance(3, 4) { rng.pick_cloned(&s.hooks) } else { rng.pick_cloned(hp) },
         },
     };
+    // now and then the listening contract itself asks to be (un)subscribed
+    let mut side = rng.clone();
+    side.below(1000);
+    let sender = match &op {
+        Op::AddHook { addr } | Op::RemoveHook { addr } if side.chance(1, 6) => addr.clone(),
+        _ => sender,
+    };
     (sender, op)
 }
 
